@@ -28,9 +28,9 @@ package main
 
 //vc:func check
 //vc:  requires policy != ""
-//vc:  requires InvApprove(statusFile[device], hasOK[device], tOK[device], pOK[device])
-//vc:  requires InvCompare(statusFile[device], hasOK[device], tOK[device], hasCmp[device], tCmp[device], pCmp[device], chg[device])
-//vc:  requires InvTimes(statusFile[device], hasOK[device], tOK[device], hasCmp[device], tCmp[device], now)
+//vc:  requires[C13] InvApprove(statusFile[device], hasOK[device], tOK[device], pOK[device])
+//vc:  requires[C13] InvCompare(statusFile[device], hasOK[device], tOK[device], hasCmp[device], tCmp[device], pCmp[device], chg[device])
+//vc:  requires[C13] InvTimes(statusFile[device], hasOK[device], tOK[device], hasCmp[device], tCmp[device], now)
 //vc:  requires hasOK[device] ==> pOK[device] != ""
 //vc:  requires hasCmp[device] ==> pCmp[device] != ""
 //vc:  let est = establishes(hasOK[device], tOK[device], pOK[device], hasCmp[device], tCmp[device], pCmp[device], chg[device],
